@@ -12,7 +12,8 @@ let pow2 k = let rec go acc k = if k = 0 then acc else go (N.mul acc (n_of_int 2
 type pinfo = { pf : fam; pkey : n; pprof : n }
 
 let famch = function F4 -> "4" | F6 -> "6" | FD -> "D"
-let profch = function F4 -> "p" | _ -> "q"
+let same_names = ref false   (* cfg token NS: IPv6 profiles are named like the IPv4 ones, so pool names coincide across families *)
+let profch = function F4 -> "p" | _ -> if !same_names then "p" else "q"
 let pool_name f prof key = profch f ^ dn prof ^ "/k" ^ dn key
 let sid_name s = "s" ^ dn s
 let show_addr = function None -> "nil" | Some a -> dn a
@@ -76,6 +77,7 @@ let show_out (st : state) (o : out) =
   | ORel6 -> "il"
   | ORestart -> "restart"
   | OIa -> "ia"
+  | OHa ok -> if ok then "ha ok" else "ha err"
 
 (* plugins/dhcp6/local lease tables; DUID = 00030001 + MAC *)
 let psnap6 (st : state) =
@@ -132,6 +134,10 @@ let parse_op toks : op option =
   | ["IL"; sid] -> Some (IL (nd sid))
   | ["IT"; sid] -> Some (IT (nd sid))
   | ["IA"; sid] -> Some (IA (nd sid))
+  | [("HR" | "HL") as t; fam; key; x; sid] ->
+    let f = (match fam with "4" -> F4 | "6" -> F6 | _ -> FD) in
+    let it = if f = FD then item_of_tok x else (nd x, N0) in
+    Some (if t = "HR" then HR (f, o key, it, nd sid) else HL (f, o key, it, nd sid))
   | _ -> None
 
 (* the part of a segment after the op's own result: registry + lease-table snapshots *)
@@ -441,12 +447,14 @@ let () =
         let isegs = match impls with
           | Some l -> (match List.nth_opt l idx with Some il -> Array.of_list (split_segs il) | None -> [||])
           | None -> [||] in
-        benign_bad := 0; benign_steps := 0; unsafe_steps := 0;
+        benign_bad := 0; benign_steps := 0; unsafe_steps := 0; same_names := false;
         let out = run_case_b variant line isegs in
         print_endline (if !benign_mode then Printf.sprintf "benign=%d safe=%d steps=%d" (if !benign_bad = 0 then 1 else 0) (if !unsafe_steps = 0 then 1 else 0) !benign_steps else out)
       end else
       let parts = split_segs line in
-      let st0 = parse_cfg (tokens (List.hd parts)) in
+      let cfg_toks = tokens (List.hd parts) in
+      let cfg_toks = (match cfg_toks with "NS" :: r -> same_names := true; r | l -> same_names := false; l) in
+      let st0 = parse_cfg cfg_toks in
       let isegs = match impls with
         | Some l -> (match List.nth_opt l idx with Some il -> Array.of_list (split_segs il) | None -> [||])
         | None -> [||] in
